@@ -165,7 +165,7 @@ pub const SEGS: &[&str] = &[
     "ad", "ads", "banner", "track", "pixel", "img", "js", "api", "v1", "v2", "promo", "static",
 ];
 pub const EXTS: &[&str] = &[".js", ".gif", ".png", ".html", "", ".css"];
-pub const QKEYS: &[&str] = &["utm", "id", "ref", "q"];
+pub const QKEYS: &[&str] = &["utm", "id", "ref", "q", "UTM", "Id", "sessionID", "sessionid"];
 pub const QVALS: &[&str] = &["1", "abc", "", "x_y"];
 pub const TYPES: &[&str] = &[
     "main_frame",
@@ -219,8 +219,8 @@ pub const TYPE_OPTS: &[&str] = &[
 pub const TAGS: &[&str] = &["t1", "t2", "t3"];
 pub const REDIRECTS: &[&str] = &["noop.js", "1x1.gif", "noop.txt", "missing.js", "perm.js", "nooptext", "fnlib.fn", "noop-alt", "1x1-blank.gif", "blank", "noopjs"];
 pub const CSPS: &[&str] = &["script-src 'none'", "img-src 'self'", "frame-src *", "worker-src 'none'"];
-pub const CLASSES: &[&str] = &["ad", "ads", "banner", "sponsor", "promo", "box"];
-pub const IDS: &[&str] = &["top", "side", "ad-slot", "footer"];
+pub const CLASSES: &[&str] = &["ad", "ads", "banner", "sponsor", "promo", "box", "реклама"];
+pub const IDS: &[&str] = &["top", "side", "ad-slot", "footer", "баннер"];
 
 fn pick_s(r: &mut Rng, xs: &[&str]) -> String {
     (*r.pick(xs)).to_string()
@@ -249,7 +249,14 @@ pub fn gen_pattern_h(r: &mut Rng, p_regexish: u32, tiny: bool, hostwild: bool) -
             9 => (format!("{}*{}|", s1, if e.is_empty() { ".gif".into() } else { e }), false),
             10 => (format!("|https://{}/*{}", h, s1), false),
             11 => (format!("/{}*{}|", s1, if e.is_empty() { ".js".into() } else { e }), false),
-            12 => (format!("|http*://{}/{}", h, s1), false),
+            12 => {
+                if r.chance(40) {
+                    // two separators in a row
+                    (format!("/{}^^{}", s1, s2), false)
+                } else {
+                    (format!("|http*://{}/{}", h, s1), false)
+                }
+            }
             0 => (format!("/{}/*/{}", s1, s2), false),
             1 => (format!("/{}^", s1), false),
             2 => (format!("^{}^", s1), false),
@@ -261,6 +268,32 @@ pub fn gen_pattern_h(r: &mut Rng, p_regexish: u32, tiny: bool, hostwild: bool) -
             _ => (format!("/{}/{}*", s1, s2), false),
         }
     } else {
+        if r.chance(4) {
+            // rarely seen but legal host spellings
+            return (
+                match r.below(5) {
+                    0 => format!("||www.{}^", r.pick(DOMAINS)),
+                    1 => "||пример.example^".to_string(),
+                    2 => "||xn--e1afmkfd.example/ads".to_string(),
+                    3 => "||192.168.1.10^".to_string(),
+                    _ => format!("||{}:8080/{}", h, s1),
+                },
+                false,
+            );
+        }
+        if hostwild && r.chance(3) {
+            // scheme-only anchors (like `||*` rules only where both engines index the list the same way:
+            // such a rule is indexed under the scheme token, which ws:// URLs it matches do not contain)
+            return (pick_s(r, &["|ws://", "|wss://", "|https://", "|http://"]), false);
+        }
+        if r.chance(2) {
+            // a very long pattern
+            let mut long = format!("/{}/", s1);
+            for k in 0..40 {
+                long.push_str(&format!("{}{}-", r.pick(SEGS), k));
+            }
+            return (long, false);
+        }
         if r.chance(6) {
             // literal text that is special in a regex: exercises escaping when such a rule is fused
             // or combined with wildcards
@@ -291,7 +324,7 @@ fn gen_domain_opt(r: &mut Rng) -> String {
     let n = if r.chance(15) { r.range(3, 5) } else { r.range(1, 2) };
     for _ in 0..n {
         let neg = r.chance(30);
-        let d = if r.chance(60) { pick_s(r, DOMAINS) } else { pick_s(r, HOSTS) };
+        let d = if r.chance(4) { "example.*".to_string() } else if r.chance(60) { pick_s(r, DOMAINS) } else { pick_s(r, HOSTS) };
         parts.push(format!("{}{}", if neg { "~" } else { "" }, d));
     }
     parts.dedup();
@@ -392,7 +425,7 @@ pub fn gen_cos_rule(r: &mut Rng, p: &Profile) -> String {
         _ => format!(".{}-{}", c, i),
     };
     let hosts = |r: &mut Rng| -> String {
-        let n = r.range(1, 2);
+        let n = if r.chance(12) { r.range(3, 4) } else { r.range(1, 2) };
         let mut v: Vec<String> = vec![];
         for _ in 0..n {
             let base = match r.below(4) {
@@ -411,12 +444,12 @@ pub fn gen_cos_rule(r: &mut Rng, p: &Profile) -> String {
         0 | 1 | 2 => format!("##{}", sel),
         3 | 4 => format!("{}##{}", hosts(r), sel),
         5 => format!("{}#@#{}", hosts(r), sel),
-        6 => format!("{}##{}:style(color: red)", hosts(r), sel),
+        6 => format!("{}##{}:style({})", hosts(r), sel, r.pick(&["color: red", "color: red", "display: none !important", "display:none"])),
         7 => format!("{}##{}:remove()", hosts(r), sel),
         8 => format!("{}##div:has-text({})", hosts(r), c),
         9 => {
-            let name = pick_s(r, &["set", "noop", "fnuser", "perm", "missing", "trusted", "usesperm", "usesperm"]);
-            let arg = pick_s(r, &["a", "b.c", "1", "'q'"]);
+            let name = pick_s(r, &["set", "noop", "fnuser", "perm", "missing", "trusted", "usesperm", "usesperm", "dup"]);
+            let arg = pick_s(r, &["a", "b.c", "1", "'q'", "'a, b'", "\"c d\"", "a\\, b", "x, y, z", "{}"]);
             if r.chance(30) {
                 format!("{}##+js({})", hosts(r), name)
             } else {
@@ -475,6 +508,8 @@ pub fn standard_resources() -> Vec<ResSpec> {
         mk("set.js", &["set-constant.js", "set"], "template", "self['{{1}}'] = \"{{2}}\";", &[], 0),
         mk("fnuser.js", &["fnuser"], "js", "function fnuser(a, b) { return fnlib() + 1; }", &["fnlib.fn"], 0),
         mk("noop.txt", &["nooptext"], "txt", "rev2", &[], 0),
+        // a template that uses the same placeholder twice
+        mk("dup.js", &["dup"], "template", "first('{{1}}'); second('{{1}}', '{{2}}');", &[], 0),
     ]
 }
 
@@ -498,6 +533,10 @@ pub fn gen_url_t(r: &mut Rng, non_ascii: bool) -> String {
         2 => format!("user:pw@{}", h),
         3 => format!("{}.", h),
         4 => "192.168.1.10".to_string(),
+        6 => format!("www.{}", h),
+        7 => "пример.example".to_string(),
+        8 => "[2001:db8::1]".to_string(),
+        9 => format!("www.{}:8443", h),
         5 => format!("{}:443", h),
         _ => h.to_string(),
     };
@@ -646,6 +685,29 @@ pub fn gen_world(seed: u64, p: &Profile) -> World {
                 rules.push(Rule { spec: RuleSpec::Net(sib), perm });
             }
         }
+        // a removeparam rule with the same pattern and options but another parameter name
+        if nr.opts.iter().any(|o| o.starts_with("removeparam=")) && r.chance(45) {
+            let mut tw = nr.clone();
+            for o in tw.opts.iter_mut() {
+                if o.starts_with("removeparam=") {
+                    let cur = o["removeparam=".len()..].to_string();
+                    let mut other = pick_s(&mut r, QKEYS);
+                    if other == cur {
+                        other = if cur == "q" { "ref".to_string() } else { "q".to_string() };
+                    }
+                    *o = format!("removeparam={}", other);
+                }
+            }
+            rules.push(Rule { spec: RuleSpec::Net(tw), perm });
+        }
+        // the same rule again: an exact duplicate line, or another spelling of the same pattern
+        if r.chance(6) && !nr.pat.is_empty() {
+            let mut dup = nr.clone();
+            if r.chance(50) && !nr.pat.starts_with('|') && !nr.pat.ends_with('|') && !(nr.pat.starts_with('/') && nr.pat.ends_with('/')) && !nr.pat.starts_with('*') {
+                dup.pat = format!("*{}*", nr.pat);
+            }
+            rules.push(Rule { spec: RuleSpec::Net(dup), perm });
+        }
         // derived siblings: the same rule with a longer pattern that contains the original one
         if r.chance(12) && !nr.pat.is_empty() && !nr.opts.iter().any(|o| o == "match-case" || o.starts_with("removeparam")) && !(nr.pat.starts_with('/') && nr.pat.ends_with('/') && nr.pat.len() > 1) {
             let mut sib = nr.clone();
@@ -685,6 +747,16 @@ pub fn gen_world(seed: u64, p: &Profile) -> World {
             rules.push(Rule { spec: RuleSpec::Net(NetRule { exc, pat, opts: opts.clone(), tag: None }), perm: 0 });
         }
     }
+    // very rarely a long list (parallel / chunked code paths of list handling)
+    if r.chance(1) && r.chance(50) {
+        let extra_n = 4090 + r.below(12);
+        let mut pp = p.clone();
+        pp.badfilter = false;
+        for k in 0..extra_n {
+            rules.push(Rule { spec: RuleSpec::Net(NetRule { exc: false, pat: format!("/bulk/{}/item{}", r.pick(SEGS), k), opts: vec![], tag: None }), perm: 0 });
+        }
+        let _ = pp;
+    }
     // degenerate lists: nothing at all, cosmetic rules only, tagged network rules only
     match r.below(40) {
         0 => rules.clear(),
@@ -699,6 +771,33 @@ pub fn gen_world(seed: u64, p: &Profile) -> World {
     for _ in 0..p.extra {
         let mut pp = p.clone();
         pp.badfilter = false;
+        // a third of the rules added later are near copies of rules of the list: the same rule with
+        // another (or no) tag, or with its domain list negated
+        let nets: Vec<&NetRule> = rules.iter().filter_map(|x| if let RuleSpec::Net(n) = &x.spec { Some(n) } else { None }).filter(|n| !n.opts.iter().any(|o| o == "badfilter")).collect();
+        if !nets.is_empty() && r.chance(33) {
+            let mut tw = (*r.pick(&nets)).clone();
+            let taggable = !tw.opts.iter().any(|o| o.starts_with("redirect") || o.starts_with("removeparam") || o == "generichide" || o == "ghide");
+            match r.below(3) {
+                0 if taggable && p.p_tag > 0 => tw.tag = Some(pick_s(&mut r, TAGS)),
+                1 if taggable => tw.tag = None,
+                _ => {
+                    let mut changed = false;
+                    for o in tw.opts.iter_mut() {
+                        if let Some(v) = o.strip_prefix("domain=") {
+                            if !v.contains('|') {
+                                *o = if let Some(x) = v.strip_prefix('~') { format!("domain={}", x) } else { format!("domain=~{}", v) };
+                                changed = true;
+                            }
+                        }
+                    }
+                    if !changed && taggable && p.p_tag > 0 {
+                        tw.tag = Some(pick_s(&mut r, TAGS));
+                    }
+                }
+            }
+            extra.push(Rule { spec: RuleSpec::Net(tw), perm: 0 });
+            continue;
+        }
         extra.push(Rule { spec: RuleSpec::Net(gen_net_rule(&mut r, &pp)), perm: 0 });
     }
 
@@ -724,6 +823,9 @@ pub fn gen_world(seed: u64, p: &Profile) -> World {
         let mut directed = 0;
         let mut order: Vec<usize> = (0..rules.len()).collect();
         r.shuffle(&mut order);
+        // the last lines of the list always get a probe of their own
+        let tail: Vec<usize> = (rules.len().saturating_sub(3)..rules.len()).collect();
+        let order: Vec<usize> = tail.into_iter().chain(order.into_iter()).collect();
         for i in order {
             if directed >= 14 {
                 break;
